@@ -471,6 +471,7 @@ func (e *Enc) call(fr *Frame, st *State, c *ssa.Call) *State {
 		recv := e.val(fr, cc.Value)
 		e.addOb(fr, "SAFE", "nil", c.Pos(), text, "(not (= (itag "+recv+") 0))", false)
 		e.assumeG("(not (= (itag " + recv + ") 0))")
+		e.siteAsserts(fr, st, c)
 		return e.invoke(fr, st, c, recv, args)
 	}
 	callee := cc.StaticCallee()
@@ -692,6 +693,8 @@ func (e *Enc) readerResult(fr *Frame, c *ssa.Call, fn string, st *State, args []
 	var reads []string
 	if callee := c.Common().StaticCallee(); callee != nil {
 		reads = e.readHeaps(callee)
+	} else if c.Common().IsInvoke() {
+		reads = e.readHeapsIface(c.Common().Value.Type(), c.Common().Method)
 	}
 	told, gate := e.heapTokensH(st, args, ts, reads)
 	e.ufResultS(fr, c, fn, append(append([]string{}, args...), told, gate), append(sorts, "Int", "Int"))
@@ -754,6 +757,30 @@ func (e *Enc) heapTokensH(st *State, args []string, ts []types.Type, reads []str
 	return told, "(ite (and " + strings.Join(conds, " ") + " true) 0 " + cur + ")"
 }
 
+// readHeapsIface: union over the implementations of an interface method.
+func (e *Enc) readHeapsIface(it types.Type, m *types.Func) []string {
+	impls := e.w.implementations(it, m)
+	if impls == nil {
+		return nil
+	}
+	set := map[string]bool{}
+	for _, f := range impls {
+		r := e.readHeaps(f)
+		if r == nil {
+			return nil
+		}
+		for _, h := range r {
+			set[h] = true
+		}
+	}
+	hs := []string{}
+	for h := range set {
+		hs = append(hs, h)
+	}
+	sort.Strings(hs)
+	return hs
+}
+
 // readHeaps: the heaps a read-only function may read (its own loads and those of the readers it calls).
 func (e *Enc) readHeaps(f *ssa.Function) []string {
 	if r, ok := e.readMemo[f]; ok {
@@ -806,12 +833,37 @@ func (e *Enc) readHeaps(f *ssa.Function) []string {
 						continue
 					}
 					if x.Call.IsInvoke() {
-						unknown = true // implementations are not enumerated here
+						impls := e.w.implementations(x.Call.Value.Type(), x.Call.Method)
+						if impls == nil {
+							unknown = true
+						}
+						for _, g2 := range impls {
+							visit(g2, depth+1)
+						}
 						continue
 					}
 					if c := x.Call.StaticCallee(); c != nil {
 						if e.w.mine[pkgOf(c)] {
 							visit(c, depth+1)
+						} else if e.w.readOnlyExt != nil && e.w.readOnlyExt(shortName(c)) {
+							// reads what its arguments point to
+							for _, a := range x.Call.Args {
+								switch u := a.Type().Underlying().(type) {
+								case *types.Slice:
+									set[e.elemHeap(u.Elem())] = true
+								case *types.Pointer:
+									if st, ok := u.Elem().Underlying().(*types.Struct); ok {
+										for i := 0; i < st.NumFields(); i++ {
+											set[e.fieldHeap(u.Elem(), st, i)] = true
+										}
+									} else {
+										set[e.cellHeap(u.Elem())] = true
+									}
+								case *types.Map:
+									d, v, l := e.mapHeaps(u)
+									set[d], set[v], set[l] = true, true, true
+								}
+							}
 						} else {
 							for _, a := range x.Call.Args {
 								if !valueLike(a.Type(), 0) {
